@@ -6,7 +6,7 @@ from cpverif import gen_mol as G
 from cpverif.oracles import rng_from
 from cpverif.runner import subcheck
 
-TOL = {"local_rtol": 1e-10, "sdmx_integral_rtol": 1e-8, "energy_rtol": 1e-7, "nldf_integral": "truncation-limited, see rule"}
+TOL = {"local_rtol": 1e-10, "sdmx_integral_rtol": 1e-8, "energy_rtol": "1e-7 |E| + 3e-9 |E_x^LDA|", "nldf_integral": "truncation-limited, see rule"}
 CFC = 0.3 * (3 * np.pi**2) ** (2.0 / 3)
 
 
@@ -254,7 +254,14 @@ def exchange_energy_scaling(case, ctx):
     ctx.close(np.atleast_1d(n1), np.atleast_1d(n0), ("nelec",), rtol=1e-10)
     # not exact to rounding: the +1e-16 regularisers in s^2 / tau_W and the 1e-10 density floors are not scale
     # invariant; measured residual <= 4e-9
-    ctx.close([e1], [lam * e0], ("exchange_energy", fam), rtol=1e-7, lam=lam)
+    # The synthetic enhancement factors have either sign, so |E| can be orders of magnitude below the integrated
+    # |energy density| (thorough tier: E = -5e-3 Eh on He-B with an absolute residual of 1e-9): the absolute part of
+    # the tolerance is 3e-9 of the LDA exchange energy of the density (measured residual 3e-10 of it at lambda = 0.32)
+    from pyscf.dft import numint as pnumint
+
+    rho_tot = sum(pnumint.eval_rho(mol, pnumint.eval_ao(mol, g0.coords), dm, xctype="LDA") for dm in dms)
+    e_lda = 0.7386 * float(np.dot(g0.weights, np.maximum(rho_tot, 0.0) ** (4.0 / 3)))
+    ctx.close([e1], [lam * e0], ("exchange_energy", fam), rtol=1e-7, atol=3e-9 * lam * e_lda, lam=lam)
 
 
 # ------------------------------------------------------------------------------------------------
